@@ -433,9 +433,12 @@ void World::opUnary(const Step &s)
         }
     }
     dd_edge a_copy(*A.e);
+    const bool inplace = (ri == A.forest) && ((s.a[3] >> 3) % 5 == 0);
+    if (inplace) { *res->e = *A.e; desc << " [in place]"; stats.fired["result_aliases_operand"]++; }
     try {
-        if (which == 0) apply(DIST_INC, *A.e, *res->e);
-        else apply(uuf(which - 1), *A.e, *res->e);
+        const dd_edge &src = inplace ? *res->e : *A.e;
+        if (which == 0) apply(DIST_INC, src, *res->e);
+        else apply(uuf(which - 1), src, *res->e);
     }
     catch (MEDDLY::error &e) {
         markErrored(A.forest); markErrored(ri);
@@ -606,9 +609,12 @@ void World::opImage(const Step &s)
     }
     if (!distOK) res->oracle = false;
     dd_edge ac(*A.e), rc(*Rl.e);
+    const bool inplace = (ri == A.forest) && ((s.a[4] >> 3) % 5 == 0);
+    if (inplace) { *res->e = *A.e; desc << " [in place]"; stats.fired["result_aliases_operand"]++; }
     try {
-        if (fwd) apply(POST_IMAGE, *A.e, *Rl.e, *res->e);
-        else     apply(PRE_IMAGE, *A.e, *Rl.e, *res->e);
+        const dd_edge &src = inplace ? *res->e : *A.e;
+        if (fwd) apply(POST_IMAGE, src, *Rl.e, *res->e);
+        else     apply(PRE_IMAGE, src, *Rl.e, *res->e);
     }
     catch (MEDDLY::error &e) {
         markErrored(A.forest); markErrored(Rl.forest); markErrored(ri);
@@ -731,18 +737,54 @@ static void closure(const Table &init, const Table &R, bool fwd, long N, Table &
     }
 }
 
+// shortest distances from an initial distance function: d(t) = min over s of
+// init(s) + (length of a shortest path s -> t); unreachable stays unreachable
+static void distances(const Table &init, FKind k, const Table &R, bool fwd, long N, Table &out)
+{
+    std::vector<std::vector<int>> succ, pred;
+    adjacency(R, succ, pred);
+    const long INF = 1L << 60;
+    std::vector<long> d(size_t(N), INF);
+    for (long x = 0; x < N; x++) {
+        const Val &v = init.v[size_t(x)];
+        const bool member = (k == FK_EVP) ? !v.inf : (v.i >= 0);
+        if (member) d[size_t(x)] = v.i;
+    }
+    // Bellman-Ford style relaxation (N is tiny)
+    bool changed = true;
+    while (changed) {
+        changed = false;
+        for (long x = 0; x < N; x++) {
+            if (d[size_t(x)] >= INF) continue;
+            for (int y : (fwd ? succ[size_t(x)] : pred[size_t(x)])) {
+                if (d[size_t(x)] + 1 < d[size_t(y)]) { d[size_t(y)] = d[size_t(x)] + 1; changed = true; }
+            }
+        }
+    }
+    out = init;
+    for (long x = 0; x < N; x++) {
+        if (d[size_t(x)] >= INF) out.v[size_t(x)] = (k == FK_EVP) ? Val::pinf(Val::I) : Val::n(-1);
+        else out.v[size_t(x)] = Val::n(d[size_t(x)]);
+    }
+}
+
 void World::opReach(const Step &s)
 {
     cur_family = "reach";
     const bool fwd = s.a[1] & 1;
     const bool allowKnown = (s.a[5] == 999);
     std::vector<size_t> ca = edgesWhere([&](const EdgeSlot &e) {
-        return e.forest >= 0 && forests[e.forest].alive && !forests[e.forest].spec.rel
-            && forests[e.forest].kind() == FK_MTB && e.oracle;
+        if (e.forest < 0 || !forests[e.forest].alive || forests[e.forest].spec.rel || !e.oracle) return false;
+        const FKind k = forests[e.forest].kind();
+        // boolean sets; MT-integer distances (fully reduced, as the image
+        // operation requires) and EV+ distances
+        if (k == FK_MTI) return forests[e.forest].spec.red == 0;
+        return k == FK_MTB || k == FK_EVP;
     });
     if (ca.empty()) { note(OC_SKIP); return; }
     EdgeSlot &A = *edges[ca[s.a[2] % ca.size()]];
     ForRT &FA = forests[A.forest];
+    const FKind ak = FA.kind();
     std::vector<size_t> cr = edgesWhere([&](const EdgeSlot &e) {
         return e.forest >= 0 && forests[e.forest].alive && forests[e.forest].spec.rel
             && forests[e.forest].kind() == FK_MTB && forests[e.forest].spec.dom == FA.spec.dom && e.oracle;
@@ -750,13 +792,20 @@ void World::opReach(const Step &s)
     if (cr.empty()) { note(OC_SKIP); return; }
     EdgeSlot &Rl = *edges[cr[s.a[3] % cr.size()]];
     int ri = ((s.a[5] & 1) && !allowKnown) ? A.forest : pickForest(s.a[4], [&](const ForRT &F) {
-        return F.spec.dom == FA.spec.dom && !F.spec.rel && F.kind() == FK_MTB;
+        if (ak == FK_MTI && F.spec.red != 0) return false;
+        return F.spec.dom == FA.spec.dom && !F.spec.rel && F.kind() == ak;
     });
     if (ri < 0 || !sameOrder(A.forest, Rl.forest) || !sameOrder(A.forest, ri)) { note(OC_SKIP); return; }
     const Dom &D = doms[FA.spec.dom].m;
     Table want;
-    closure(A.tab, Rl.tab, fwd, D.N, want);
+    if (ak == FK_MTB) closure(A.tab, Rl.tab, fwd, D.N, want);
+    else {
+        // distance functions: wide initial values would only test addition
+        for (const Val &v : A.tab.v) if (!v.inf && (v.i > (1L << 20))) { note(OC_SKIP); return; }
+        distances(A.tab, ak, Rl.tab, fwd, D.N, want);
+    }
     unsigned algs = 1 + s.a[0] % 7;     // bit0 FS, bit1 NOFS, bit2 SATUR
+    if (ak != FK_MTB) { algs &= 6; if (!algs) algs = 2; }    // the frontier variant is offered for boolean sets only
     desc << "reach " << (fwd ? "fwd" : "bwd") << " algs=" << algs << " init " << en(A) << " rel " << en(Rl) << " in " << fn(Rl.forest) << " result " << fn(ri);
     dd_edge ac(*A.e), rc(*Rl.e);
     EdgeSlot* res = nullptr;
@@ -792,9 +841,25 @@ void World::opReach(const Step &s)
         }
         if (*A.e != ac || *Rl.e != rc) { failNow("O1", cur_family, "reachability changed an operand"); return; }
         static const char* nm[] = { "REACH_TRAD_FS", "REACH_TRAD_NOFS", "REACH_SATUR" };
-        stats.opcount[std::string(nm[al]) + (fwd ? ":fwd" : ":bwd")]++;
-        if (!checkEdge(*r, "I1", cur_family, nm[al])) return;
-        if (res && res->forest == r->forest && *res->e != *r->e) {
+        stats.opcount[std::string(nm[al]) + (fwd ? ":fwd" : ":bwd") + (ak == FK_MTB ? "" : (ak == FK_EVP ? ":EV+dist" : ":MTdist"))]++;
+        if (ak == FK_MTI) {
+            // "negative = unreachable": any negative value stands for it
+            Table got;
+            libTable(forests[rf], *r->e, got);
+            for (size_t i = 0; i < got.v.size(); i++) {
+                const Val &g = got.v[i], &m = want.v[i];
+                const bool ok = (m.i < 0) ? (g.i < 0) : (g.i == m.i);
+                if (!ok) {
+                    std::ostringstream o;
+                    o << nm[al] << " MT integer distance at state " << i << ": library " << g.str() << ", model " << m.str();
+                    failNow("I1", cur_family, o.str());
+                    return;
+                }
+            }
+            r->tab = got;
+        }
+        else if (!checkEdge(*r, "I1", cur_family, nm[al])) return;
+        if (res && res->forest == r->forest && res->tab.same(r->tab) && *res->e != *r->e) {
             failNow("I2", cur_family, "two reachability algorithms return different edges for the same input");
             return;
         }
@@ -1004,6 +1069,15 @@ void World::opReorder(const Step &s)
     bool reached = true;
     for (int k = 1; k <= n; k++) if (F.lvl2var[size_t(k)] != l2v[size_t(k)]) reached = false;
     if (reached) stats.opcount["reorder:target_reached"]++;
+    else {
+        std::ostringstream o;
+        o << "reorderVariables returned without error but the forest is not in the requested order: requested";
+        for (int k = 1; k <= n; k++) o << " " << l2v[size_t(k)];
+        o << ", forest reports";
+        for (int k = 1; k <= n; k++) o << " " << F.lvl2var[size_t(k)];
+        failNow("V1", cur_family, o.str());
+        return;
+    }
     for (auto &pr : others) {
         if (*pr.first->e != pr.second) {
             failNow("V1", cur_family, "reordering one forest changed an edge of another forest");
